@@ -135,6 +135,14 @@ CHECKS = {
         "note": "Exhaustive for all trees within (depth,width,leaf set) bounds incl. depth 4-5 over one leaf; random trees beyond. Which import name is chosen is bound from the log, not prescribed.",
         "technique": _TLC,
     },
+    "C16": {
+        "level": "exploration",
+        "text": "RuntimeDoc.tla enumerates type cases (8 kinds x doc comments over 11 line classes x 9 field patterns x 7 field doc patterns) and defines coverage, listed fields and the "
+                "answers RuntimeDoc must give, computed from the recorded source lines; each case is real Go source, the real runtimedoc generator runs through gengo, the module is compiled "
+                "with a probe program and RuntimeDocTrace.tla compares every recorded answer (type doc, every field, embedded delegation, unknown and unlisted names) with the specification's.",
+        "note": "Compiler + compiled probe are the oracle for 'compiles' and 'returns'; canonical comment text; embed references, docs starting with a field's own name and documented embedded fields are not generated.",
+        "technique": "TLA+-enumerated domain with a model-computed oracle, TLC trace judge over the compiled program's answers",
+    },
     "C19": {
         "level": "model_checking",
         "text": "CamelCase.tla models Split as a rune-class scanner with an explicit PANIC outcome; TLC proves it total, lossless and free of empty "
